@@ -46,11 +46,12 @@ func (p uriParts) String() string {
 
 // verdict of the reference: "accept", "reject" or "either" (statement silent).
 type expectURI struct {
-	verdict string
-	scheme  stun.SchemeType
-	host    string
-	port    int
-	proto   stun.ProtoType
+	checkProto bool // verdict "either", but an accepted URI must carry this transport
+	verdict    string
+	scheme     stun.SchemeType
+	host       string
+	port       int
+	proto      stun.ProtoType
 }
 
 func refURI(p uriParts) expectURI {
@@ -107,6 +108,15 @@ func refURI(p uriParts) expectURI {
 			e.proto = stun.ProtoTypeTCP
 		case p.Query == "transport=" || p.Query == "transport=udp&transport=tcp" || p.Query == "transport=tcp&transport=udp":
 			return expectURI{verdict: "either"} // empty value / repeated key: statement silent
+		case strings.EqualFold(p.Query, "transport=udp") || strings.EqualFold(p.Query, "transport=tcp"):
+			// other spellings of a known transport (ABNF literals are case-insensitive): statement silent,
+			// but if accepted the transport must be the one named
+			e.verdict = "either"
+			e.proto = stun.ProtoTypeUDP
+			if strings.EqualFold(p.Query, "transport=tcp") {
+				e.proto = stun.ProtoTypeTCP
+			}
+			e.checkProto = true
 		default:
 			return expectURI{verdict: "reject"} // unknown transport, extra or other keys
 		}
@@ -186,6 +196,9 @@ func runC17Parse(c c17Parse) error {
 	}
 	if err != nil {
 		return nil
+	}
+	if want.checkProto && u.Proto != want.proto {
+		return fmt.Errorf("ParseURI(%q) accepted the URI with transport %v, the query names %v", s, u.Proto, want.proto)
 	}
 
 	return genericInvariant(u)
